@@ -177,6 +177,8 @@ def check_C07(tier, seed):
     for pr in sample(pairs, len(pairs) if not quick else 784, r):
         scripts.append(scen.dispatch_script(r, len(scripts), labels=list(pr) + list(pr)[::-1]))
     scripts += [scen.dispatch_script(r, len(scripts) + i) for i in range(300 if quick else 4000)]
+    # a Retry token presented from another address proves nothing about that address
+    scripts += [scen.antiamp_retry_move(r, len(scripts) + i) for i in range(120 if quick else 1500)]
     mcs = [("AntiAmp.tla", "MC_AntiAmp.cfg"), ("Dispatch.tla", "MC_Dispatch.cfg")]
     # the 3x bound for EVERY datagram size and byte count: inductive, discharged by Apalache
     ind = V.apalache_inductive("AntiAmpInd.tla", "AInit", "ANext", "C07")
